@@ -8,6 +8,9 @@
 #include <yaclib/async/wait.hpp>
 #include <yaclib/async/when_all.hpp>
 #include <yaclib/async/when_any.hpp>
+#include <yaclib/coro/await.hpp>
+#include <yaclib/coro/future.hpp>
+#include <yaclib/coro/shared_future.hpp>
 #include <yaclib/exe/submit.hpp>
 #include <yaclib/runtime/fair_thread_pool.hpp>
 
@@ -45,6 +48,7 @@ struct In {
   std::uint32_t id = 0;
   std::uint64_t set_invoke = 0, set_return = 0;
   std::uint32_t cell = 0;  // written before the input is fulfilled
+  bool by_coroutine = false;  // the input is a coroutine's future: its completion arrives through final_suspend (Next), not Promise::Set
 };
 
 class Case final : public sim::CaseBase {
@@ -86,6 +90,7 @@ class Case final : public sim::CaseBase {
       if (comb == kWhenAllTuple && i > 0) {
         in.shared = false;
       }
+      in.by_coroutine = g.Draw(3) == 2;
       ins.push_back(in);
     }
     consumer = static_cast<int>(g.Draw(2));
@@ -130,7 +135,7 @@ class Case final : public sim::CaseBase {
     j.KV("input_kind", comb == kWhenAllTuple ? (kind == kAllUnique ? "Future<T>, Future<int>[, Future<T>]" : "SharedFuture<T>, Future<int>[, Future<T>]") : kKindNames[kind]);
     j.Key("inputs").Arr();
     for (auto& in : ins) {
-      j.Obj().KV("outcome", kOutNames[in.outcome]).KV("completed_by", kModeNames[in.mode]).KV("delay", in.delay).KV("shared", in.shared);
+      j.Obj().KV("outcome", kOutNames[in.outcome]).KV("completed_by", kModeNames[in.mode]).KV("delay", in.delay).KV("shared", in.shared).KV("produced_by", in.by_coroutine ? "coroutine" : "promise");
       if (gate_applies) {
         j.KV("held_until_output_seen", in.late);
       }
@@ -147,6 +152,7 @@ class Case final : public sim::CaseBase {
     std::vector<yaclib::SharedFuture<V, E>> sf;
     std::vector<yaclib::Promise<V, E>> up;
     std::vector<yaclib::SharedPromise<V, E>> sp;
+    std::vector<yaclib::Promise<void, E>> gate;  // inputs produced by a coroutine: it waits for this gate, then co_returns / throws
   };
   Inputs<T> it;
   Inputs<void> iv;
@@ -158,6 +164,29 @@ class Case final : public sim::CaseBase {
     x.sf.resize(n);
     x.up.resize(n);
     x.sp.resize(n);
+    x.gate.resize(n);
+  }
+
+  template <typename V, typename R>
+  static R CoInput(Case* c, std::size_t i, yaclib::Future<void, E> gate) {
+    co_await yaclib::Await(gate);
+    In& in = c->ins[i];
+    sim::RaceWrite(&in.cell, sizeof in.cell);
+    in.cell = in.id;
+    in.set_invoke = sim::Seq();
+    if (in.outcome == 2) {
+      throw sim::TaggedEx{in.id};
+    }
+    if (in.outcome == 1) {
+      co_return E{in.id};
+    }
+    if constexpr (std::is_void_v<V>) {
+      co_return {};
+    } else if constexpr (std::is_same_v<V, int>) {
+      co_return static_cast<int>(in.id);
+    } else {
+      co_return T{in.id};
+    }
   }
 
   template <typename V, typename P>
@@ -182,6 +211,11 @@ class Case final : public sim::CaseBase {
   template <typename V>
   void Complete(Inputs<V>& x, std::size_t i) {
     In& in = ins[i];
+    if (in.by_coroutine) {
+      std::move(x.gate[i]).Set();
+      in.set_return = sim::Seq();
+      return;
+    }
     if (in.shared) {
       Fulfil<V>(std::move(x.sp[i]), in);
     } else {
@@ -191,6 +225,17 @@ class Case final : public sim::CaseBase {
 
   template <typename V>
   void Prepare(Inputs<V>& x, std::size_t i) {
+    if (ins[i].by_coroutine) {
+      SIM_PROBE("input_produced_by_coroutine");
+      auto [gf, gp] = yaclib::MakeContract<void, E>();
+      x.gate[i] = std::move(gp);
+      if (ins[i].shared) {
+        x.sf[i] = CoInput<V, yaclib::SharedFuture<V, E>>(this, i, std::move(gf));
+      } else {
+        x.uf[i] = CoInput<V, yaclib::Future<V, E>>(this, i, std::move(gf));
+      }
+      return;
+    }
     if (ins[i].shared) {
       auto [f, p] = yaclib::MakeSharedContract<V, E>();
       x.sf[i] = std::move(f);
